@@ -67,7 +67,7 @@ var specs = map[string]spec{
 		Level:     "model_checking",
 		Rule:      "a state is a distinct program/data/input; a transition is one compile+render, EvalExpr or ParseGlobals call; non-trivial = the program compiled (so the render ran) or the expression parsed",
 		Bounds: map[string]string{
-			"quick":    "24 value classes; 14 operators; 18 function names x arity 0-4; 12 directive names x arity 0-3; range over {-3,0,2,10}^2 x 5 steps; 8 failing prints x depth 1-3; 12 file orders; 34^2 globals inputs; 8+ JSON shapes squared",
+			"quick":    "24 value classes; 14 operators; 18 function names x arity 0-4; 12 directive names x arity 0-3; range over {-3,0,2,10}^2 x 5 steps; 8 failing prints x depth 1-3; float, huge and tiny range arguments; evaluation errors inside quoted attributes; 12 file orders; 34^2 globals inputs; 8+ JSON shapes squared",
 			"thorough": "same space (already exhaustive for the alphabet)",
 		},
 		Assumptions: commonAssumptions, Plain: true, QuickStride: 1, ThoroughStride: 1, QuickDeadline: 420, ThoroughDeadline: 3000,
@@ -115,7 +115,7 @@ var specs = map[string]spec{
 		Level:     "model_checking",
 		Rule:      "a state is a distinct (neighbours, text) template; a transition is one render compared with the rule; non-trivial = non-empty template body",
 		Bounds: map[string]string{
-			"quick":    "all strings len<=4 between all 25 neighbour pairs, len 5 for the 5 equal-neighbour pairs, len 6 between two prints; 8^3 x 8^2 two-run texts; 12x12 pieces x 6 comment forms x 3 predecessors; literals len<=4; 7x7 special commands x 6 texts",
+			"quick":    "all strings len<=4 between all 25 neighbour pairs, len 5 for the 5 equal-neighbour pairs, len 6 between two prints; 8^3 x 8^2 two-run texts; 12x12 pieces x 13 comment forms (incl. /***/, /** c */, runs of asterisks) x 6 predecessors; line breaks next to 7 runes whose code point ends in the byte of <, > or NUL; literals len<=4; 7x7 special commands x 6 texts",
 			"thorough": "len<=5 for all neighbour pairs, len 6 for equal-neighbour pairs",
 		},
 		Assumptions: commonAssumptions, Plain: true, QuickStride: 1, ThoroughStride: 1, QuickDeadline: 420, ThoroughDeadline: 3000,
@@ -139,7 +139,7 @@ var specs = map[string]spec{
 		Level:     "model_checking",
 		Rule:      "a state is a (message body, meaning) pair; transitions = compilations under distinct map orders and surroundings (counter map_orders_explored); every case is non-trivial (id and names compared)",
 		Bounds: map[string]string{
-			"quick":    "bodies of <=3 parts over 26 parts (meanings on bodies <=2), 5 plural variables x 8 case sets x a fifth of 42 bodies; 4 surroundings each under map-order deviation bound 2, plus ten copies inside every block kind (canonical order)",
+			"quick":    "bodies of <=3 parts over 26 parts (meanings on bodies <=2), 5 plural variables x 8 case sets x a fifth of 42 bodies; 4 surroundings each under map-order deviation bound 2, plus ten copies inside every block kind (canonical order); a third of 8^3 x 2 messages with a plural nested in a case of another plural",
 			"thorough": "deviation bound 3; additionally all 4-part bodies over the 10 colliding parts; all plural bodies",
 		},
 		Assumptions: commonAssumptions, Plain: true, QuickStride: 1, ThoroughStride: 3, QuickDeadline: 420, ThoroughDeadline: 3000, OrderSensitive: true,
@@ -175,7 +175,7 @@ var specs = map[string]spec{
 		Level:     "model_checking",
 		Rule:      "a state is a distinct input string; transitions = directive applications (counters directive_applications_go/js); every case is non-trivial",
 		Bounds: map[string]string{
-			"quick":    "1 + 256 + 65536 byte strings, 12^3 + 12^4 alphabet strings, 24 special strings incl. 10 kB; insertWordBreaks limits 1..8, truncate limits 0..len+2",
+			"quick":    "1 + 256 + 65536 byte strings, 12^3 + 12^4 alphabet strings, 24 special strings incl. 10 kB; insertWordBreaks limits 1..8, truncate limits 0..len+2; changeNewlineToBr and insertWordBreaks also in a template with autoescaping off",
 			"thorough": "same",
 		},
 		Assumptions: commonAssumptions, Plain: true, QuickStride: 4, ThoroughStride: 1, QuickDeadline: 420, ThoroughDeadline: 3000,
@@ -211,7 +211,7 @@ var specs = map[string]spec{
 		Level:     "translation_validation",
 		Rule:      "a program is one template (or bundle) x data set in the common subset; programs counts dual renders; disagreements_checked counts disagreements examined against the reference model",
 		Bounds: map[string]string{
-			"quick":    "C01 strata S1,S2,S4,S5,S3 in the common subset (minimal and full parentheses); every fourth body of the C02 grammar x up to 18 data sets; 7 message bodies x 3 bundles x 2 modes; 4x3 autoescape modes x 12 directive chains x 8 values through print, call and let",
+			"quick":    "C01 strata S1,S2,S4,S5,S3 in the common subset (minimal and full parentheses); every fourth body of the C02 grammar x up to 18 data sets; 7 hand-written bodies (component nesting, variables named like generator-derived loop names); 7 message bodies x 3 bundles x 2 modes; 4x3 autoescape modes x 12 directive chains x 8 values through print, call and let",
 			"thorough": "every body of the C02 grammar, three-operator nestings",
 		},
 		Assumptions: commonAssumptions, Plain: true, QuickStride: 8, ThoroughStride: 8, QuickDeadline: 500, ThoroughDeadline: 3000,
@@ -223,7 +223,7 @@ var specs = map[string]spec{
 		Level:     "model_checking",
 		Rule:      "a state is a distinct (origin, literal) carrier, name or bundle; a transition is one generate+parse(+evaluate+call); non-trivial = the compiler accepted the bundle so JavaScript was generated and judged",
 		Bounds: map[string]string{
-			"quick":    "12 origins x (127 ASCII bytes + 162 special pairs + 49 special strings incl. 6-9 kB non-ASCII runs at 4 byte offsets and non-printable code points outside the basic plane); 5 namespaces x 4 names; 66 reserved / generator / global identifiers x 6 uses; every third body of the C02 grammar (syntax under both formatters; every fifth of those evaluated)",
+			"quick":    "12 origins x (127 ASCII bytes + 162 special pairs + 49 special strings incl. 6-9 kB non-ASCII runs at 4 byte offsets and non-printable code points outside the basic plane); 5 namespaces x 4 names; 66 reserved / generator / global identifiers x 6 uses; 5 bodies whose variables are named like the names derived for loops and param blocks; every third body of the C02 grammar (syntax under both formatters; every fifth of those evaluated)",
 			"thorough": "every body of the C02 grammar",
 		},
 		Assumptions: commonAssumptions, Plain: true, QuickStride: 6, ThoroughStride: 6, QuickDeadline: 500, ThoroughDeadline: 3000,
@@ -253,13 +253,13 @@ var specs = map[string]spec{
 		Assumptions: commonAssumptions, Plain: true, QuickStride: 1, ThoroughStride: 4, QuickDeadline: 420, ThoroughDeadline: 3000,
 	},
 	"C18": {
-		LevelText: "every parse of the C05 input space runs under the controlled scheduler, which sees all logical threads: after the call returns the remaining threads are run to quiescence and any survivor is a leak; small inputs are explored under all schedules up to 2 preemptions; the plain build confirms with goroutine counts",
+		LevelText: "every parse of the C05 input space (files and expressions, and globals files through ParseGlobals) runs under the controlled scheduler, which sees all logical threads: after the call returns the remaining threads are run to quiescence and any survivor is a leak; small inputs are explored under all schedules up to 2 preemptions; the plain build confirms with goroutine counts",
 		LevelNote: "assumes every goroutine/channel operation in the parser is owned by the instrumenter (the instrumenter lists unowned sites in the evidence; today only the fsnotify select in bundle.go)",
 		Technique: "stateless model checking under a controlled scheduler (thread census at quiescence), preemption bound 2",
 		Level:     "model_checking",
 		Rule:      "same input space as C05; each parse runs under the controlled scheduler; after the call returns all other logical threads are driven to quiescence and survivors are counted; on the plain build the goroutine count is compared with its value before the call; non-trivial = non-empty input or an error result",
 		Bounds: map[string]string{
-			"quick":    "as C05 quick; canonical schedule for all inputs (schedule exploration: see C18 schedules counter)",
+			"quick":    "as C05 quick, plus ParseGlobals on every sequence of <=3 lines over 10 line forms and on one failing line at every position of files of <=12 lines (LF and CRLF); canonical schedule for all inputs (schedule exploration: see C18 schedules counter)",
 			"thorough": "as C05 thorough",
 		},
 		Assumptions: commonAssumptions, Plain: true, QuickStride: 1, ThoroughStride: 4, QuickDeadline: 420, ThoroughDeadline: 3000,
